@@ -267,15 +267,16 @@ func refCheck(t *Term, g Gamma) (*Ty, error) {
 		}
 		t.Sig = s
 		// do tyEq-equal but differently ordered types meet in one variable / parameter?
-		for i := range as {
-			if !s.Params[i].Ground() {
-				for j := 0; j < i; j++ {
-					if Eq(as[i], as[j]) && !EqPos(as[i], as[j]) {
-						t.Mixed = true
-					}
+		if s.Poly() {
+			sub := map[string]*Ty{}
+			for i := range as {
+				matchM(s.Params[i], as[i], sub, &t.Mixed)
+			}
+		} else {
+			for i := range as {
+				if !EqPos(s.Params[i], as[i]) {
+					t.Mixed = true
 				}
-			} else if !EqPos(s.Params[i], as[i]) {
-				t.Mixed = true
 			}
 		}
 		return r, nil
@@ -295,6 +296,7 @@ type RefOutcome struct {
 }
 
 type ectx struct {
+	rec    func(t *Term, v RVal) // called after a variable / call / member / subscript term has been evaluated
 	env    map[string]RVal
 	trace  []string
 	unspec bool
@@ -323,6 +325,25 @@ func RefEval(t *Term, env map[string]RVal) RefOutcome {
 }
 
 func (c *ectx) eval(t *Term) (RVal, string) {
+	v, f := c.eval0(t)
+	if f == "" && c.rec != nil {
+		switch t.K {
+		case TkVar, TkCall, TkMember, TkSub:
+			c.rec(t, v)
+		}
+	}
+	return v, f
+}
+
+// RefEvalRec is RefEval that also reports the evaluated variable / call /
+// member / subscript terms with their values, in order of completion.
+func RefEvalRec(t *Term, env map[string]RVal, rec func(t *Term, v RVal)) RefOutcome {
+	c := &ectx{env: env, tags: map[*Term]string{}, rec: rec}
+	v, f := c.eval(t)
+	return RefOutcome{Val: v, Fail: f, Trace: c.trace, Unspec: c.unspec, Repeat: c.repeat, Tags: c.tags}
+}
+
+func (c *ectx) eval0(t *Term) (RVal, string) {
 	switch t.K {
 	case TkNum:
 		x, ok := decodeNum(t.Text)
